@@ -279,7 +279,9 @@ def logical_only(n: Any) -> bool:
         return False
     op = opname(n)
     if op is None:
-        return isinstance(n._f.get("data"), str) and not str(n._f.get("data")).startswith("'")
+        # (an operand of a logical operator is a name, also when it starts with an apostrophe: string literals occur only
+        # under comparison operators, which are not in LOGICAL)
+        return isinstance(n._f.get("data"), str)
     return op in LOGICAL and logical_only(n._f.get("left")) and logical_only(n._f.get("right"))
 
 
